@@ -157,6 +157,9 @@ class TabIntpCompuMethod(CompuMethod):
                 f"Internal value {physical_value!r} must be inside the range"
                 f" [{min(self.physical_points)}, {max(self.physical_points)}]", EncodeError)
 
+        if self.internal_type in (DataType.A_INT32, DataType.A_UINT32):
+            # integers are rounded, not truncated
+            result = round(result)
         res = self.internal_type.make_from(result)
 
         return res
@@ -181,6 +184,9 @@ class TabIntpCompuMethod(CompuMethod):
                 f" [{min(self.internal_points)}, {max(self.internal_points)}]", DecodeError)
             return None
 
+        if self.physical_type in (DataType.A_INT32, DataType.A_UINT32):
+            # integers are rounded, not truncated
+            result = round(result)
         res = self.physical_type.make_from(result)
 
         return res
